@@ -344,33 +344,53 @@ def forms(secret):
     return out
 
 
-def secrets_of(h, lift):
+def secrets_of(h):
+    """every secret the harness knows, gathered without relying on the shape of what was written"""
+    rr = refreader.RefReader(h['config'])
     sec = []
-    for u, k in lift.keys.items():
+    keys = {}
+    for u in h['keys']:
+        try:
+            k = keys[u] = rr.open_key(h['keys'][u], h['passwords'][u])
+        except Exception:
+            sec.append(('password', h['passwords'][u]))
+            try:        # the private section may not be encrypted at all
+                priv = refreader.parse_json(h['keys'][u])['private']
+                if isinstance(priv, dict):
+                    sec += [('shared key', priv['shared_key']), ('MAC key', priv['mac_params']), ('chunker key', priv['chunker_params'])]
+            except Exception:
+                pass
+            continue
         sec += [('password', k.password), ('user key', k.userkey), ('shared key', k.shared_key), ('MAC key', k.mac_key),
                 ('chunker key', k.chunker_key), ('shared KDF salt', k.shared_salt)]
-    for d, pt in lift.plains.items():
-        sec.append(('chunk digest', d))
-        if len(pt) >= 16:
-            sec += [('file bytes', pt), ('file bytes', pt[:24]), ('file bytes', pt[-24:])]
     for files in h['files']:
         for p, data in files.items():
             sec += [('path', p.encode()), ('path', Path(p).name.encode()), ('path', Path(p).parent.name.encode())]
-            if len(data) >= 16:
-                sec.append(('file bytes', data[:32]))
-            sec.append(('file digest', lift.rr.hash(data)))
+            for off in range(0, max(len(data) - 23, 0), 24):        # every chunk of >= 47 bytes contains one of these blocks
+                sec.append(('file bytes', data[off:off + 24]))
+            sec.append(('file digest', rr.hash(data)))
+            try:
+                import os
+                sec.append(('metadata', str(h['mtimes'][p]).encode()))
+            except Exception:
+                pass
     for n in h['notes']:
         if n:
             sec.append(('note', n.encode()))
-    for loc, obj, parsed, u in lift.snap_terms.values():
-        sec.append(('metadata', parsed['data']['utc_timestamp'].encode()))
-        for f in parsed['data']['files']:
-            sec.append(('metadata', str(f['metadata']['st_mtime_ns']).encode()))
+    # chunk digests and timestamps, as far as the snapshots can be read
+    for (v, u) in h['snapshots']:
+        for d in v.chunks:
+            sec.append(('chunk digest', bytes(d)))
+        sec.append(('metadata', str(v.data['utc_timestamp']).encode()))
+        for f in v.data['files']:
+            if f.get('metadata'):
+                sec.append(('metadata', str(f['metadata']['st_mtime_ns']).encode()))
     seen, out = set(), []
-    for k, s in sec:
-        if len(s) >= 8 and (k, s) not in seen:
-            seen.add((k, s))
-            out.append((k, s))
+    for k, s_ in sec:
+        s_ = bytes(s_)
+        if len(s_) >= 8 and (k, s_) not in seen:
+            seen.add((k, s_))
+            out.append((k, s_))
     return out
 
 
@@ -402,10 +422,12 @@ def haystacks(h):
     for e in h['log']:
         if e[0] == 'upload':
             hs.append(('object name', e[1].encode()))
+            hs.append(('object name', e[1].replace('/', '').encode()))      # the tag is spread over directory levels
             for b in blobs(e[2]):
                 hs.append(('object ' + e[1].split('/')[0], b))
         elif e[0] in ('exists', 'delete', 'download'):
             hs.append(('object name', e[1].encode()))
+            hs.append(('object name', e[1].replace('/', '').encode()))
     for u, data in h['keyfiles'].items():
         for b in blobs(data):
             hs.append(('key file', b))
@@ -422,10 +444,10 @@ def haystacks(h):
     return out
 
 
-def taint_scan(h, lift):
+def taint_scan(h):
     hits, n = [], 0
     hay = haystacks(h)
-    for kind, s in secrets_of(h, lift):
+    for kind, s in secrets_of(h):
         for form, needle in forms(s):
             for where, b in hay:
                 n += 1
@@ -441,18 +463,8 @@ def check_case(ctx, rep: Report, h, encrypted=True):
             f'{(h["hashing"] or {"name": "blake2b"})["name"]}'
     replay = {'cid': cid, 'cipher': h['cipher'], 'hashing': h['hashing'], 'seed': h['seed']}
     rep.count('config:' + label)
-    try:
-        lift = Lift(h)
-        items = lift.lift_all()
-    except Exception as e:  # the written format is not what the documented format says
-        rep.disagreements.append({'what': f'[{label}] lifting what was written failed: {type(e).__name__}: {e}', 'replay': replay})
-        rep.case((cid, h['seed']), nontrivial=False)
-        return
-    for p in lift.problems:
-        rep.disagreements.append({'what': f'[{label}] {p}', 'replay': replay})
-    rep.case((label, h['seed']), nontrivial=lift.n_chunks >= 4 and len(lift.snap_terms) >= 2)
-    # ---- taint scan (C)
-    hits, n = taint_scan(h, lift)
+    # ---- taint scan (C): model-free, does not depend on the lifting
+    hits, n = taint_scan(h)
     rep.evaluations += n
     rep.count('scans', n)
     seen = set()
@@ -463,6 +475,16 @@ def check_case(ctx, rep: Report, h, encrypted=True):
         seen.add(key)
         rep.violations.append({'what': f'[{label}] {hit["secret"]} found in {hit["form"]} form in {hit["where"]}',
                                'signature': {'secret': hit['secret'], 'where': hit['where']}, 'replay': replay})
+    try:
+        lift = Lift(h)
+        items = lift.lift_all()
+    except Exception as e:  # the written format is not what the documented format says
+        rep.disagreements.append({'what': f'[{label}] lifting what was written failed: {type(e).__name__}: {e}', 'replay': replay})
+        rep.case((cid, h['seed']), nontrivial=False)
+        return
+    for p in lift.problems:
+        rep.disagreements.append({'what': f'[{label}] {p}', 'replay': replay})
+    rep.case((label, h['seed']), nontrivial=lift.n_chunks >= 4 and len(lift.snap_terms) >= 2)
     # ---- nonces: every Enc node performed once; distinct (key, plaintext) pairs must not share a nonce
     enc_nodes = set()
 
@@ -507,7 +529,7 @@ def check_case(ctx, rep: Report, h, encrypted=True):
         rep.violations.append({'what': f'[{label}] a written term exposes a secret according to the secrecy predicate: {bad}',
                                'signature': {'secret': 'symbolic', 'where': 'lifted term'}, 'replay': replay})
     rep.sample({'configuration': label, 'items': len(li), 'chunk objects': lift.n_chunks, 'snapshots': len(lift.snap_terms),
-                'secrets scanned': len(secrets_of(h, lift)), 'example item': refreader.coq(items[1] if len(items) > 1 else items[0])[:300]})
+                'secrets scanned': len(secrets_of(h)), 'example item': refreader.coq(items[1] if len(items) > 1 else items[0])[:300]})
 
 
 def scanner_selfcheck(ctx, rep):
@@ -536,15 +558,25 @@ def scanner_selfcheck(ctx, rep):
     shutil.rmtree(root, ignore_errors=True)
 
 
+def run_one(ctx, rep, seed, cid, cipher, hashing):
+    import random
+    try:
+        h = run_history(random.Random(seed), ctx.scratch, cid, cipher, hashing)
+    except Exception as e:  # a command of the honest history failed on the implementation
+        rep.case((cid, seed), nontrivial=False)
+        rep.disagreements.append({'what': f'the history could not be run on the implementation ({cipher}, {hashing}): {type(e).__name__}: {str(e)[:300]}',
+                                  'replay': {'cid': cid, 'cipher': cipher, 'hashing': hashing, 'seed': seed}})
+        return
+    h['seed'] = seed
+    check_case(ctx, rep, h)
+
+
 def run(ctx) -> Report:
     rep = Report(rule=RULE)
     rep.notes.append('indistinguishability of ciphertexts and the quality of os.urandom are outside this technique: the theorem is the symbolic statement only')
     for cid, (cipher, hashing) in enumerate(configs(ctx)):
         seed = ctx.rng.randrange(1 << 30)
-        import random
-        h = run_history(random.Random(seed), ctx.scratch, cid, cipher, hashing)
-        h['seed'] = seed
-        check_case(ctx, rep, h)
+        run_one(ctx, rep, seed, cid, cipher, hashing)
     scanner_selfcheck(ctx, rep)
     return rep
 
@@ -556,9 +588,7 @@ def search(ctx, broken) -> Report:
     for rnd in range(3):
         for cipher, hashing in configs(ctx):
             seed = ctx.rng.randrange(1 << 30)
-            h = run_history(random.Random(seed), ctx.scratch, cid, cipher, hashing)
-            h['seed'] = seed
-            check_case(ctx, rep, h)
+            run_one(ctx, rep, seed, cid, cipher, hashing)
             cid += 1
     return rep
 
